@@ -21,6 +21,18 @@ fn emit_for(t: &mut TraceOut, a: &[f64], n: usize, cls: &str, spd: bool) {
         (Some((lus, ps)), Some((lum, pm))) => {
             let same = same_bits(lus, &lum.data) && ps == pm;
             t.emit(json!({"kind": "lu", "cls": cls, "n": n, "a": aj, "out": "ok", "lu": projrs_scaled(lus, 4096), "piv": ps, "same": same}));
+            // the same matrix in other units (far from unit scale): pivots and L unchanged, U scaled, bit for bit
+            for e in [-600i32, 560] {
+                let f = 2f64.powi(e);
+                let a2: Vec<f64> = a.iter().map(|v| v * f).collect();
+                let am2 = Matrix { data: Vector::new(a2.clone()), nrows: n, ncols: n };
+                let want: Vec<f64> = lus.iter().enumerate().map(|(q, v)| if q / n > q % n { *v } else { v * f }).collect();
+                let s2 = guard(|| lu(&a2));
+                let m2 = guard(|| am2.lu());
+                t.emit(json!({"kind": "lu_scaled", "cls": cls, "n": n, "a": aj, "scale_log2": e, "slice_ok": s2.is_some(), "matrix_ok": m2.is_some(),
+                              "slice_is_scaled_factor": s2.as_ref().map(|(l, p)| same_bits(l, &want) && p == ps).unwrap_or(false),
+                              "matrix_is_scaled_factor": m2.as_ref().map(|(l, p)| same_bits(&l.data, &want) && p == pm).unwrap_or(false)}));
+            }
             let d1 = guard(|| am.det());
             let d2 = guard(|| lum.lu_det(pm));
             for (name, d) in [("Matrix::det", d1), ("Matrix::lu_det", d2)] {
